@@ -205,6 +205,7 @@ func main() {
 		recs []govtypes.IdentityRecord
 		reqs []govtypes.IdentityRecordsVerify
 		idx  map[int]map[string]uint64
+		uk   string
 	}
 	addrList := func(ss []string) string {
 		xs := make([]string, len(ss))
@@ -248,6 +249,7 @@ func main() {
 			bs = append(bs, fmt.Sprintf("((Gov, %s), %s)", hx.Str(d), hx.ZInt(app.BankKeeper.GetBalance(ctx, govAcc, d).Amount)))
 		}
 		uk := gk.GetNetworkProperties(ctx).UniqueIdentityKeys
+		sn.uk = uk
 		sn.coq = fmt.Sprintf("(mkSnap %s %s %s %s %s)", hx.List(rs), hx.List(es), hx.List(qs), hx.Str(uk), hx.List(bs))
 		return sn
 	}
@@ -463,6 +465,64 @@ func main() {
 	valPool := []string{"alice", "bob", "carol", "Alice", "x", "y", "", "same", "abcdefghijklmnopqrstuvwxyz0123456", "abcdefghijklmnopqrstuvwxyz012345"}
 	keySets := []string{"moniker,username", "moniker,username,twitter", "moniker,username,web,twitter", "moniker", "moniker,twitter", "Moniker,username", "username", "", "moniker,username,a_b", "moniker,,username", "moniker,username,description"}
 	pick := func(xs []string) string { return xs[rng.Intn(len(xs))] }
+	spell := func(k string) string { // a random spelling of a key
+		switch rng.Intn(3) {
+		case 0:
+			return strings.ToUpper(k)
+		case 1:
+			return strings.ToUpper(k[:1]) + k[1:]
+		}
+		return k
+	}
+	candKeys := []string{"twitter", "web", "a_b", "description", "email", "contact"}
+	// editList: the current list with [cand] inserted at position pos (0 = front ... len = end; -1 = not
+	// inserted), optionally with the old keys permuted, one key repeated, or one old key dropped
+	editList := func(cur string, cand string, pos int, permute, repeat, drop bool) string {
+		old := []string{}
+		if cur != "" {
+			old = strings.Split(cur, ",")
+		}
+		old = append([]string{}, old...)
+		if permute && len(old) > 1 {
+			for i := len(old) - 1; i > 0; i-- {
+				j := rng.Intn(i + 1)
+				old[i], old[j] = old[j], old[i]
+			}
+		}
+		if drop && len(old) > 0 {
+			i := rng.Intn(len(old))
+			old = append(old[:i], old[i+1:]...)
+		}
+		if pos >= 0 {
+			if pos > len(old) {
+				pos = len(old)
+			}
+			old = append(old[:pos], append([]string{cand}, old[pos:]...)...)
+		}
+		if repeat && len(old) > 0 {
+			i, j := rng.Intn(len(old)), rng.Intn(len(old)+1)
+			old = append(old[:j], append([]string{old[i]}, old[j:]...)...)
+		}
+		return strings.Join(old, ",")
+	}
+	randomKeyList := func(h *hist) string {
+		if rng.Chance(25) {
+			return pick(keySets)
+		}
+		cand := pick(candKeys)
+		if rng.Chance(35) && len(h.last.recs) > 0 { // a key that already has records (possibly duplicated values)
+			cand = h.last.recs[rng.Intn(len(h.last.recs))].Key
+		}
+		if rng.Chance(5) {
+			cand = spell(cand)
+		}
+		n := len(strings.Split(h.last.uk, ","))
+		pos := rng.Intn(n + 1)
+		if rng.Chance(8) {
+			pos = -1
+		}
+		return editList(h.last.uk, cand, pos, rng.Chance(35), rng.Chance(12), rng.Chance(8))
+	}
 
 	randomHistory := func(cfg int, nops int, withRotation bool) {
 		h := start(cfg)
@@ -497,6 +557,10 @@ func main() {
 						key = pick(badKeys)
 					}
 					infos = append(infos, [2]string{key, pick(valPool)})
+				}
+				if rng.Chance(18) && len(h.last.recs) > 0 { // the same value somebody else holds, under any spelling of the key
+					r := h.last.recs[rng.Intn(len(h.last.recs))]
+					infos = append(infos, [2]string{spell(r.Key), r.Value})
 				}
 				if rng.Chance(3) {
 					infos = nil
@@ -586,14 +650,14 @@ func main() {
 					m = " " + m + "  "
 				}
 				do(h, mkValidator(h.now, user, m))
-			case k < 97:
-				do(h, mkKeysProp(pick(keySets)))
+			case k < 97 || (k < 99 && cfgs[cfg].pn == nil):
+				do(h, mkKeysProp(randomKeyList(h)))
 			default:
 				p := 6
 				if rng.Chance(30) {
 					p = rng.Intn(4)
 				}
-				do(h, mkKeysMsg(p, pick(keySets)))
+				do(h, mkKeysMsg(p, randomKeyList(h)))
 			}
 		}
 		shape := "random"
@@ -682,6 +746,41 @@ func main() {
 		do(h, mkCancel(4, 1))
 		do(h, mkCancel(0, 1))
 		finish(h, "scripted:rotation-foreign-request")
+	}
+	// ---- systematic sweep of unique-key list edits: new key at every position (front / middle / end),
+	// old keys permuted or not, through the single-property path and through MsgSetNetworkProperties,
+	// with and without two addresses already holding the same value under the candidate key
+	// (registered in two spellings); afterwards a third address tries to take the value and a
+	// verifier approves one of the records
+	for _, dup := range []bool{true, false} {
+		for _, viaMsg := range []bool{false, true} {
+			for pos := 0; pos <= 2; pos++ {
+				for _, permute := range []bool{false, true} {
+					h := start(1)
+					cand := candKeys[(pos+len(js))%len(candKeys)]
+					v0, v1 := "same", "same"
+					if !dup {
+						v1 = "other"
+					}
+					do(h, mkRegister(h.now, 0, [][2]string{{spell(cand), v0}, {"moniker", "m0"}}))
+					do(h, mkRegister(h.now, 1, [][2]string{{spell(cand), v1}}))
+					list := editList(h.last.uk, cand, pos, permute, false, false)
+					edit := func(l string) opT {
+						if viaMsg {
+							return mkKeysMsg(6, l)
+						}
+						return mkKeysProp(l)
+					}
+					do(h, edit(list))
+					do(h, edit(editList(h.last.uk, cand, rng.Intn(3), true, true, false))) // again, with a repeated key
+					do(h, mkRegister(h.now, 2, [][2]string{{spell(cand), "same"}}))
+					do(h, mkRequest(0, 3, []uint64{1}, "ukex", 0))
+					do(h, mkHandle(3, 1, true))
+					do(h, edit(editList(h.last.uk, candKeys[(pos+3)%len(candKeys)], pos, permute, false, false)))
+					finish(h, fmt.Sprintf("scripted:keylist dup=%v msg=%v pos=%d permute=%v", dup, viaMsg, pos, permute))
+				}
+			}
+		}
 	}
 	for i := 0; i < *n; i++ {
 		cfg := rng.Intn(len(cfgs))
